@@ -427,101 +427,15 @@ register(Obligation(name="C12.potentials.real_systems_nonsymmetric_cells", prop=
 # ------------------------------------------------------------------------------------------------
 
 
-class PotentialWritesFrame:
-    """Frame contract (writes) on the AST of the tree under check, for every function of eminus.potentials and eminus.gth: an in-place store
-    (`x[...] = v`, `x += v`, `x.attr = v`) is only made into a name whose EVERY binding in that function is a freshly created object (an allocation,
-    the result of arithmetic, a literal, a comprehension, the result of a call that is not a view-returning one). A name bound to a parameter, to an
-    attribute or to an element / slice of something else (`Sf = atoms.Sf[i]`: a view) may alias the caller's data; storing through it changes the
-    Atoms / SCF object that every later evaluation reads. Scalars are immaterial (`n += 1` on a number re-binds), but the rule does not need to know.
-    A suspicious store is a refutation CANDIDATE: it counts as a violation when the native twin (second evaluation on the same SCF object) reproduces
-    a change of the structure factors or of Vloc, and is undecided otherwise."""
-
-    VIEW_CALLS = ("asarray", "real", "imag", "reshape", "ravel", "view", "squeeze", "transpose", "conj", "atleast_2d", "atleast_1d", "diagonal")
-    MODULES = ("eminus.potentials", "eminus.gth")
-    # stores into `self` inside methods build the object itself (GTH.__init__), they are the method's purpose
-    ALLOWED_SELF = True
-
-    def fresh(self, v):
-        import ast
-
-        if isinstance(v, (ast.Constant, ast.BinOp, ast.UnaryOp, ast.ListComp, ast.List, ast.Dict, ast.DictComp, ast.Tuple, ast.Compare, ast.BoolOp, ast.JoinedStr)):
-            return True
-        if isinstance(v, ast.Call):
-            nm = ast.unparse(v.func).split(".")[-1]
-            return nm not in self.VIEW_CALLS
-        if isinstance(v, ast.IfExp):
-            return self.fresh(v.body) and self.fresh(v.orelse)
-        return False
-
-    def scan(self):
-        import ast
-        import os
-
-        bad, nstores, nfunc = [], 0, 0
-        for module in self.MODULES:
-            path = os.path.join(os.environ.get("EMINUS_REPO", "/repo"), *module.split(".")) + ".py"
-            tree = ast.parse(open(path).read())
-            for fn in (n for n in ast.walk(tree) if isinstance(n, ast.FunctionDef)):
-                nfunc += 1
-                params = {a.arg for a in fn.args.args + fn.args.kwonlyargs} | ({fn.args.vararg.arg} if fn.args.vararg else set()) | ({fn.args.kwarg.arg} if fn.args.kwarg else set())
-                binds = {}
-                for n in ast.walk(fn):
-                    if isinstance(n, ast.Assign):
-                        for t in n.targets:
-                            if isinstance(t, ast.Name):
-                                binds.setdefault(t.id, []).append(n.value)
-                            elif isinstance(t, ast.Tuple):
-                                for e in t.elts:
-                                    if isinstance(e, ast.Name):
-                                        binds.setdefault(e.id, []).append(n.value if isinstance(n.value, ast.Call) else None)
-                    elif isinstance(n, (ast.For, ast.comprehension)):
-                        for e in ast.walk(n.target):
-                            if isinstance(e, ast.Name):
-                                binds.setdefault(e.id, []).append(None)  # loop targets: elements of something else
-                    elif isinstance(n, ast.withitem) and n.optional_vars is not None:
-                        for e in ast.walk(n.optional_vars):
-                            if isinstance(e, ast.Name):
-                                binds.setdefault(e.id, []).append(n.context_expr)
-                for n in ast.walk(fn):
-                    roots = []
-                    if isinstance(n, ast.Assign):
-                        roots = [(t, "=") for t in n.targets if isinstance(t, (ast.Subscript, ast.Attribute))]
-                    elif isinstance(n, ast.AugAssign):
-                        roots = [(n.target, type(n.op).__name__ + "=")]
-                    for t, op in roots:
-                        r = t
-                        while isinstance(r, (ast.Subscript, ast.Attribute)):
-                            r = r.value
-                        if not isinstance(r, ast.Name):
-                            continue
-                        nstores += 1
-                        if r.id == "self" and self.ALLOWED_SELF:
-                            continue
-                        if isinstance(t, ast.Name) and all(b is not None and isinstance(b, ast.Constant) for b in binds.get(r.id, [None])):
-                            continue  # a number: `n += 1` re-binds
-                        if r.id in params:
-                            bad.append(f"{module}.{fn.name}: in-place store into the parameter `{r.id}` (line {n.lineno}: {ast.unparse(t)} {op} ...)")
-                        elif not binds.get(r.id) or not all(b is not None and self.fresh(b) for b in binds[r.id]):
-                            src = next((ast.unparse(b) for b in binds.get(r.id, []) if b is not None and not self.fresh(b)), "a loop element / unknown binding")
-                            bad.append(f"{module}.{fn.name}: in-place store through `{r.id}`, which is bound to `{src[:60]}` - possibly a view of the caller's data (line {n.lineno})")
-        return bad, nstores, nfunc
-
-    def __call__(self, ob, tier, seed):
-        bad, nstores, nfunc = self.scan()
-        if nstores == 0:
-            return Result(UNDECIDED, backend="ast-frame", detail="no store statement found: the scan does not see the code")
-        if bad:
-            ok, info = self.replay({})
-            return Result(REFUTED if ok else UNDECIDED, backend="ast-frame", witness=dict(stores=bad[:5]), replayed=ok, replay_info=info,
-                          detail=f"writes outside the frame: {bad[0]}")
-        return Result(DISCHARGED, backend="ast-frame", stats=dict(functions=nfunc, store_statements=nstores))
-
-    def replay(self, wit):
-        bad = [b for b in PotentialsOfRealSystems().problems() if "second evaluation" in str(b.get("clause", ""))]
-        return bool(bad), dict(failing=bad[:4])
+from contracts.frame_common import WritesFrame  # noqa: E402
 
 
-register(Obligation(name="C12.potentials.writes_frame", prop=PROP, engine="Z", run=PotentialWritesFrame(), assumes=("cpython",),
+def _potential_frame_replay():
+    bad = [b for b in PotentialsOfRealSystems().problems() if "second evaluation" in str(b.get("clause", ""))]
+    return bool(bad), dict(failing=bad[:4])
+
+
+register(Obligation(name="C12.potentials.writes_frame", prop=PROP, engine="Z", run=WritesFrame(("eminus.potentials", "eminus.gth"), replay_fn=_potential_frame_replay), assumes=("cpython",),
                     functions=["eminus.gth:init_gth_loc", "eminus.gth:init_gth_nonloc", "eminus.potentials:coulomb", "eminus.potentials:coulomb_lr", "eminus.potentials:harmonic",
                                "eminus.potentials:ge", "eminus.potentials:init_pot"],
                     doc="frame (writes): no function of eminus.potentials / eminus.gth stores in place into a parameter or into a possible view of a parameter's data "
